@@ -202,6 +202,24 @@ def run_readers(chk, tier, flavor, nthreads, label):
         what = "ThreadSanitizer: data race" if "ThreadSanitizer" in r.stderr else f"abnormal exit {r.returncode}"
         loc = " ".join(l.strip()[:140] for l in r.stderr.splitlines() if "#0" in l or "Location" in l or "SUMMARY" in l)[:600]
         events.append({"e": "S", "file": "-", "thread": -1, "rd_seq": {"fin": "eof"}, "rd_thr": {"fin": what + " " + loc}})
+    # copies of one read block, one per thread, walked at the same time; compared with an independent reading walked alone
+    rc = subprocess.run(["timeout", "900", str(exe), "readcopies", str(lst), str(nthreads), "2" if tier == "quick" else "6", str(prefix)],
+                        capture_output=True, text=True, env=env)
+    cf = Path(f"{prefix}.copies.ndjson")
+    ncop = 0
+    for line in (cf.read_text().splitlines() if cf.exists() else []):
+        try:
+            ev = json.loads(line)
+        except Exception:
+            break
+        if ev.get("e") == "S":
+            events.append(ev)
+            ncop += 1
+    if rc.returncode != 0:
+        what = "ThreadSanitizer: data race" if "ThreadSanitizer" in rc.stderr else f"abnormal exit {rc.returncode}"
+        loc = " ".join(l.strip()[:140] for l in rc.stderr.splitlines() if "#0" in l or "Location" in l or "SUMMARY" in l)[:600]
+        events.append({"e": "S", "file": "-", "thread": -1, "rd_seq": {"fin": "eof"}, "rd_thr": {"fin": "block copies walked by threads: " + what + " " + loc}})
+    chk.extra["block_copy_walks_" + flavor] = ncop
     for t in range(nthreads):
         f = Path(f"{prefix}.{t}.ndjson")
         for line in (f.read_text().splitlines() if f.exists() else []):
